@@ -24,6 +24,9 @@ CHECKS = {
  "C19": dict(cat="model_checking", tech="TLA+ Embed.tla: TLC exhaustive model check of the native call protocol, every completed case replayed on the real package in every expressible context; constructor/accessor tables validated by TLC (FixedWidth.Conv, Trace_Values)",
    text="Embed.tla models the call protocol on an abstract operand stack (arguments pushed in order, native sees exactly them, results appended, first req kept, error when more requested than produced or when the native raises, operands below untouched); TLC explores all 7800 cases and checks the protocol invariants; each case is replayed through 7 script contexts and host-side Func/Call with natives that record what they saw. Scalar round trips (boundaries + random) are table lines validated by TLC.",
    note="natives of the raw func(vm) forms cannot touch the stack from outside the package, so they are exercised with arity 0 only; wrong-arity calls of natives are covered with script functions in C09", ref="6/C19"),
+ "C07": dict(cat="model_checking", tech="TLA+ GoatVMAbs.tla: TLC model-checks the stack discipline on the real compiler's exported code (all paths, both branch outcomes); TLC validates every distinct observed VM transition against the same effect table",
+   text="The instruction lists produced by the real compiler (optimizer on and off) for every corpus program are the constant of GoatVMAbs.tla; TLC explores (program, region, pc, depth) taking every conditional jump both ways and checks: no read below the frame's operand base, jumps stay inside the function and outside nested function bodies, only own slots, RETURN depth = declared results, fall-off depth 0, and (from the emitted states) depth is a function of pc. The real VM then runs every program under the instruction tracer and every distinct intra-frame transition is validated by TLC against the effect table; statement-only programs must return no residual values.",
+   note="the effect table is transcribed from do.go; a non-call opcode whose observed effect differs from the table is reported as exit 2 (table out of date), a call-family mismatch as a violation; corpus programs are valid Go", ref="6/C07"),
 }
 NOT_YET = {}
 def main():
